@@ -209,29 +209,24 @@ Proof.
   unfold next_char. destruct s as [|b s']; [discriminate|]. intros H. injection H as <- <-. apply suffix_skipn.
 Qed.
 
-Lemma regex_lit_go_post w full fuel : forall s0 in_class buf,
-  suffix full w -> suffix s0 full ->
-  lpost w (fun p : bytes * bytes => (length (snd p) <= length full)%nat) (regex_lit_go fuel full s0 in_class buf).
+Lemma regex_scan_go_shorter n : forall s ic p rest, (List.length s <= n)%nat ->
+  regex_scan_go s ic = Some (p, rest) -> suffix rest s /\ (List.length rest < List.length s)%nat.
 Proof.
-  induction fuel as [|f IH]; intros s0 ic buf Hf Hs; cbn [regex_lit_go]; [exact I|].
-  destruct (next_char s0) as [[c r]|] eqn:E.
-  2:{ apply lpost_err; [exact Hf|lia]. }
-  pose proof (suffix_trans _ _ _ (next_char_suffix _ _ _ E) Hs) as Hr.
-  assert (Hdef : forall ic' buf', lpost w (fun p : bytes * bytes => (length (snd p) <= length full)%nat)
-                                    (regex_lit_go f full r ic' buf')) by (intros; apply IH; auto).
-  assert (Hok : lpost w (fun p : bytes * bytes => (length (snd p) <= length full)%nat)
-                  (LOk (buf, firstn (span_len full s0) full) r)).
-  { cbn. split; [rewrite firstn_length; lia|]. eapply suffix_trans; eauto. }
-  destruct c as [|b t]; [apply Hdef|].
-  destruct (N.eq_dec b 92) as [->|N92].
-  { destruct t; [|apply Hdef]. destruct (next_char r) as [[c2 r2]|] eqn:E2; [|apply Hdef].
-    apply IH; [exact Hf|]. eapply suffix_trans; [eapply next_char_suffix; eauto|exact Hr]. }
-  destruct (N.eq_dec b 34) as [->|N34]; [destruct t; [|apply Hdef]; destruct ic; [apply Hdef|exact Hok]|].
-  destruct (N.eq_dec b 91) as [->|N91]; [destruct t; [|apply Hdef]; destruct ic; apply Hdef|].
-  destruct (N.eq_dec b 93) as [->|N93]; [destruct t; [|apply Hdef]; destruct ic; apply Hdef|].
-  (* any other first byte: the default arm *)
-  destruct b as [|p]; [apply Hdef|].
-  repeat (destruct p as [p|p|]; try apply Hdef; try contradiction).
+  induction n as [|n IH]; intros s ic p rest Hn H.
+  - destruct s; [discriminate|cbn in Hn; lia].
+  - destruct s as [|c s1]; [discriminate|]. cbn [regex_scan_go] in H. cbn [List.length] in Hn.
+    destruct (c =? 92)%N.
+    + destruct s1 as [|c2 s2]; [discriminate|]. cbn [List.length] in Hn.
+      destruct (regex_scan_go s2 ic) as [[p' rest']|] eqn:E; [|discriminate]. injection H as _ <-.
+      destruct (IH s2 ic p' rest' ltac:(lia) E) as [H1 H2]. split.
+      * eapply suffix_trans; [exact H1|]. now exists [c; c2].
+      * cbn [List.length]. lia.
+    + destruct ((c =? 34)%N && negb ic).
+      * injection H as _ <-. split; [apply suffix_cons|cbn; lia].
+      * match type of H with match regex_scan_go s1 ?ic' with _ => _ end = _ =>
+          destruct (regex_scan_go s1 ic') as [[p' rest']|] eqn:E; [|discriminate];
+          destruct (IH s1 ic' p' rest' ltac:(lia) E) as [H1 H2] end.
+        injection H as _ <-. split; [eapply suffix_trans; [exact H1|apply suffix_cons]|cbn [List.length]; lia].
 Qed.
 
 Lemma lex_regex_post (F : lex_facts) i :
@@ -242,11 +237,12 @@ Proof.
                    (LErr EExpectedName (b :: r) (length (b :: r)))).
   { cbn. split; [apply suffix_refl|lia]. }
   destruct (N.eq_dec b 34) as [->|N34].
-  { pose proof (regex_lit_go_post (34 :: r) r (S (length r)) r false [] (suffix_cons _ _) (suffix_refl _)) as H.
-    destruct (regex_lit_go (S (length r)) r r false []) as [[pat src] rest|k a n| |]; cbn in H |- *; auto.
-    destruct H as [H1 H2]. destruct (regex_compile pat) eqn:Ec; cbn.
-    - split; [rewrite Ec; discriminate|exact H2].
-    - split; [apply suffix_cons|exact H1]. }
+  { destruct (regex_scan_go r false) as [[pat rest]|] eqn:Es.
+    - destruct (regex_scan_go_shorter _ _ _ _ _ (le_n _) Es) as [H1 H2].
+      destruct (regex_compile pat) eqn:Ec; cbn.
+      + split; [rewrite Ec; discriminate|]. eapply suffix_trans; [exact H1|apply suffix_cons].
+      + split; [apply suffix_cons|lia].
+    - cbn. split; [apply suffix_cons|lia]. }
   destruct (N.eq_dec b 114) as [->|N114].
   { eapply lpost_bind.
     { eapply lpost_weaken; [apply (lf_raw_str F)|apply suffix_cons|intros a Ha; exact Ha]. }
